@@ -166,16 +166,16 @@ def tagof(x):
 
 
 def errname(e: BaseException, D) -> str:
-    if isinstance(e, D.UnknownOutputFormat):
-        return "UnknownOutputFormat"
-    if isinstance(e, InjectedRenderError):
-        return "RenderError"
     if isinstance(e, InjectedKey):
         return "Injected:KeyError"
     if isinstance(e, InjectedOther):
         return "Injected:Other"
     if type(e).__name__ == "InjectedUnknown":
         return "Injected:UnknownOutputFormat"
+    if isinstance(e, D.UnknownOutputFormat):
+        return "UnknownOutputFormat"
+    if isinstance(e, InjectedRenderError):
+        return "RenderError"
     if isinstance(e, IsADirectoryError):
         return "Injected:Other"   # the real fault: a directory called <uuid><ext> in the cache
     if isinstance(e, TypeError) and str(e).startswith("Cannot write format"):
@@ -841,6 +841,12 @@ def run(ctx: Ctx) -> Outcome:
     run_mode("real", [(c, c.name, None) for c in corpus], ["path-str", "url-zip"] if ctx.thorough else ["path-str"], rnd_subsets,
              ["svg", "png", "svg_confluence", "html_img", "termgraphics", "svgdiagram"], (False,), (True,), ("render",), rnd_roles)
 
+    # (D) call sequences on one diagram object: every entry point, faults at particular points, in-memory render state
+    import time as _time
+    _t0 = _time.time()
+    run_seq(ctx, out, D, lib, fmts, requests, pending, count)
+    phases[f"seq:{len(pending)}"] = round(_time.time() - _t0, 1)
+
     # ---- model side
     if use_model:
         keys = list(requests)
@@ -859,6 +865,18 @@ def run(ctx: Ctx) -> Outcome:
                 out.disagree("driver-error", case, impl, ans)
                 continue
             m = ans["ok"]
+            if case.get("stream") == "seq":
+                if m != impl and os.environ.get("VERIF_DEBUG"):
+                    k_ = next((i for i, (a, b) in enumerate(zip(m, impl)) if a != b), 0)
+                    print("SEQ-DISAGREE", case["way"], case["allow"], case.get("conv_faults"), case["calls"][k_], "\n  impl ", impl[k_], "\n  model", m[k_], file=sys.stderr)
+                if m != impl:
+                    k = next((i for i, (a, b) in enumerate(zip(m, impl)) if a != b), min(len(m), len(impl)))
+                    out.disagree("seq", dict(case, upto=k), impl[k] if k < len(impl) else None, m[k] if k < len(m) else None)
+                for mm, cc in zip(m, case["calls"]):
+                    out.hit(f"model:seq:{cc['entry']}:" + ("raise:" + mm["result"]["raise"] if "raise" in mm["result"] else
+                            ("hit" if any(e[0] == "from_cache" for e in mm["trace"]) else ("fresh" if ["fresh"] in mm["trace"] else "other")))
+                            + (":created" if mm["created"] else ""))
+                continue
             if case.get("stream") == "convert_format":
                 if m != impl:
                     out.disagree("convert_format", case, impl, m)
@@ -883,11 +901,503 @@ def run(ctx: Ctx) -> Outcome:
     return out
 
 
+
+# ------------------------------------------------------------------ call sequences on one diagram object (second layer)
+
+ENTRIES = ("render", "as", "html", "repr", "mimebundle", "save", "invalidate")
+MIMES = ("image/svg+xml", "image/png")
+
+
+def unjson(txt):
+    import json
+
+    try:
+        return json.loads(txt)
+    except Exception:  # noqa: BLE001
+        return ["untagged-text", str(txt)[:60]]
+
+
+def seq_call(D, w: "World", d, call: dict, tmp: pathlib.Path):
+    """one call of a history on the real object; returns (canonical result, raw)"""
+    import io
+    import markupsafe
+
+    e = call["entry"]
+    params = {} if call.get("pe", True) else {"verif_param": 1}
+    if e == "render":
+        return tagof(d.render(call["fmt"], pretty_print=call.get("pretty", False), **params))
+    if e == "as":
+        return tagof(getattr(d, "as_" + call["fmt"]))
+    if e == "html":
+        h = d.__html__()
+        pre, post = "<figure>", "<figcaption>" + str(markupsafe.escape(d.name)) + "</figcaption></figure>"
+        if not (isinstance(h, markupsafe.Markup) and h.startswith(pre) and h.endswith(post)):
+            return ["malformed-html", str(h)[:80]]
+        return ["figure", unjson(str(h)[len(pre): len(h) - len(post)])]
+    if e == "repr":
+        D.REPR_DRAW = call.get("draw", False)
+        r = repr(d)
+        short = f"<Diagram {d.name!r}>"
+        if r == short:
+            return ["repr"]
+        if r.startswith(short + "\n"):
+            return ["repr", unjson(r[len(short) + 1:])]
+        return ["malformed-repr", r[:80]]
+    if e == "mimebundle":
+        D.REPR_DRAW = call.get("draw", False)
+        b = d._repr_mimebundle_(include=call.get("inc"), exclude=call.get("exc") or None)
+        if b is None:
+            return ["none"]
+        if list(b) == ["text/plain"]:
+            short = f"<Diagram {d.name!r}>"
+            r = b["text/plain"]
+            return ["bundle_text", ["repr"] if r == short else ["repr", unjson(r[len(short) + 1:])]]
+        return ["bundle", [[m, tagof(v)] for m, v in b.items()]]
+    if e == "save":
+        fmt, kind = call["fmt"], call.get("target", "path")
+        if not call.get("given", True):
+            cwd = os.getcwd()
+            os.chdir(tmp)
+            try:
+                before = set(os.listdir(tmp))
+                d.save(None, fmt, pretty_print=call.get("pretty", False), **params)
+                new = sorted(set(os.listdir(tmp)) - before)
+            finally:
+                os.chdir(cwd)
+            if len(new) != 1:
+                return ["written-files", new]
+            data = (tmp / new[0]).read_bytes()
+            (tmp / new[0]).unlink()
+            return ["written", new[0], unjson(data.decode("utf-8"))]
+        if kind == "fileobj":
+            buf = io.BytesIO()
+            d.save(buf, fmt, pretty_print=call.get("pretty", False), **params)
+            data = buf.getvalue()
+        else:
+            target = tmp / "saved.out"
+            if target.exists():
+                target.unlink()
+            d.save(str(target) if kind == "path" else target, fmt, pretty_print=call.get("pretty", False), **params)
+            data = target.read_bytes()
+        return ["written", None, unjson(data.decode("utf-8"))]
+    if e == "invalidate":
+        d.invalidate_cache()
+        return ["done"]
+    raise ValueError(e)
+
+
+def leaf_of(t):
+    while isinstance(t, list) and t and t[0] in ("convert", "call", "convert_pretty", "from_cache"):
+        t = t[-1]
+    return t
+
+
+def values_of(res):
+    """the converter terms inside a canonical result"""
+    if not isinstance(res, list) or not res:
+        return []
+    if res[0] in ("figure",):
+        return [res[1]]
+    if res[0] == "repr":
+        return res[1:]
+    if res[0] == "bundle":
+        return [v for _m, v in res[1]]
+    if res[0] == "bundle_text":
+        return res[1][1:]
+    if res[0] == "written":
+        return [res[2]]
+    if res[0] in ("none", "done"):
+        return []
+    return [res]
+
+
+def full_term(chain, base, pretty=False, D=None):
+    """the complete conversion of `base` through `chain` (format first), brute force from the live objects"""
+    import gen_formats
+
+    ids = gen_formats.walk_objects()[3]
+    t = base
+    for cv in reversed(chain):
+        cid = ids[id(cv)] if id(cv) in ids else getattr(cv, "__qualname__", "?")
+        if pretty and isinstance(cv, D.PrettyDiagramFormat):
+            t = ["convert_pretty", cid, t]
+        elif isinstance(cv, D.DiagramFormat):
+            t = ["convert", cid, t]
+        else:
+            t = ["call", cid, t]
+    return t
+
+
+def seq_format_of(call: dict):
+    e = call["entry"]
+    if e in ("render", "as", "save"):
+        return call["fmt"]
+    if e == "html":
+        return "svg"
+    if e == "repr" and call.get("draw"):
+        return "termgraphics"
+    return None
+
+
+def judge_seq(out: Outcome, D, table, w: "World", d, hist: dict, k: int, call: dict, obs: dict):
+    """the property on ONE call of a history, whatever happened before on this object (no model involved)"""
+    def fail(cls: str, what: str):
+        out.find(f"{call['entry']}|{cls}", f"{what} [call {k} of {[c['entry'] + ':' + str(c.get('fmt')) for c in hist['calls']]} way={hist['way']} "
+                 f"files={call['files']} bad={call.get('bad')} fallback={hist['allow']}]", dict(hist, stream="seq", upto=k))
+
+    uuid = d.uuid
+    configured = w.model.diagram_cache is not None
+    exts = {}
+    for ch in table.values():
+        for cv in ch:
+            e_ = getattr(cv, "filename_extension", None)
+            if e_ and hasattr(cv, "from_cache"):
+                exts[e_] = cv
+    opened = [e[1] for e in obs["trace"] if e[0] == "open"]
+    for n in opened:
+        if not configured:
+            fail("opens-without-cache", f"opened {n!r} although no cache is configured")
+        if not (n.startswith(uuid) and n[len(uuid):] in exts):
+            fail("opens-foreign-file", f"opened {n!r}, not <uuid><ext> of diagram {uuid}")
+    present, bad = set(call["files"]), dict(call.get("bad") or [])
+    faults = hist.get("conv_faults") or []
+    res = obs["result"]
+    fresh_ran = ["fresh"] in obs["trace"]
+    # (a) whatever comes out is a COMPLETE conversion of this diagram's own cache file, or of an internal rendering / error image
+    for v in values_of(res.get("ok")) if "ok" in res else []:
+        leaf = leaf_of(v)
+        if isinstance(leaf, list) and leaf and leaf[0] == "file":
+            if not (str(leaf[1]).startswith(uuid) and str(leaf[1])[len(uuid):] in exts and leaf[1] in present):
+                fail("reads-foreign-file", f"the value derives from {leaf[1]!r}, not a cached file of diagram {uuid}")
+                continue
+            src_cv = exts[str(leaf[1])[len(uuid):]]
+            fmts_ = [seq_format_of(call)] if call["entry"] != "mimebundle" else [name_of(table, src_cv)]
+            f = fmts_[0]
+            if f in table and src_cv in table[f]:
+                want = full_term(table[f][: table[f].index(src_cv)], ["from_cache", name_id(src_cv), leaf], False, D)
+                if v != want:
+                    fail("partial-conversion", f"value {v} is not the complete conversion {want} of {leaf[1]}")
+            else:
+                fail("hit-wrong-format", f"value {v} for format {f}")
+    f = seq_format_of(call)
+    if not configured or f is None or f not in table:
+        return
+    if call["entry"] == "save" and not call.get("given", True) and not getattr(table[f][0], "filename_extension", None):
+        if res != {"raise": "ValueError"} or obs["trace"]:
+            fail("no-extension-not-refused", f"save(None, {f!r}) has no file name to generate, result {res}, trace {obs['trace']}")
+        return
+    # (b) the lookup is decided by the cache contents alone, whatever was rendered before on this object
+    first = None
+    for cv in table[f]:
+        e_ = getattr(cv, "filename_extension", None)
+        if e_ and hasattr(cv, "from_cache"):
+            n = uuid + e_
+            if n in bad:
+                first = ("bad", cv, n, bad[n])
+                break
+            if n in present:
+                first = ("hit", cv, n, None)
+                break
+    on_path = []
+    if first and first[0] == "hit":
+        cv = first[1]
+        pre = table[f][: table[f].index(cv)]
+        on_path = [("from_cache", name_id(cv))] + [("convert" if hasattr(c, "convert") else "call", name_id(c)) for c in reversed(pre)]
+    broken = [x for x in faults if (x[0], x[1]) in on_path]
+    raising = call["entry"] in ("render", "save")
+    if first and first[0] == "hit" and not broken:
+        if fresh_ran or obs["created"]:
+            fail("fresh-on-hit", f"{first[2]} is cached but the internal renderer ran")
+        vals = values_of(res.get("ok")) if "ok" in res else []
+        writable = not (call["entry"] == "save" and not isinstance(table[f][0], type))
+        if writable and (not vals or leaf_of(vals[0]) != ["file", first[2]]):
+            fail("hit-not-served", f"{first[2]} is cached (nearest) but the result is {res}")
+    elif first and first[0] == "hit" and broken and broken[0][2] != "KeyError":
+        if raising and "ok" in res:
+            fail("value-despite-converter-error", f"converter {broken[0]} raised on the hit path but a value came out: {res}")
+        if fresh_ran:
+            fail("fresh-after-converter-error", "a converter raised on the hit path and the internal renderer ran")
+    elif first and first[0] == "bad" and first[3] != "KeyError":
+        if raising and res != {"raise": "Injected:" + first[3]}:
+            fail("handler-error-not-propagated", f"open({first[2]}) raised {first[3]}, result {res}")
+        if fresh_ran:
+            fail("fresh-after-handler-error", f"open({first[2]}) raised and the internal renderer ran")
+    elif first is None and not hist["allow"]:
+        if fresh_ran or obs["created"]:
+            fail("fresh-without-fallback", "nothing cached, fallback off, but the internal renderer ran")
+        if raising and res != {"raise": "NotInCache"}:
+            fail("miss-no-error", f"nothing cached, fallback off, result {res}")
+        if call["entry"] in ("as", "html") and "ok" in res and leaf_of(values_of(res["ok"])[0]) != ["error_image", "render", "NotInCache"]:
+            fail("miss-no-error", f"nothing cached, fallback off, result {res}")
+        if call["entry"] == "repr" and res != {"ok": ["repr"]}:
+            fail("miss-no-error", f"nothing cached, fallback off, repr drew {res}")
+
+
+def name_id(cv):
+    import gen_formats
+
+    return gen_formats.walk_objects()[3].get(id(cv), getattr(cv, "__qualname__", "?"))
+
+
+def judge_bundle(out: Outcome, D, table, w: "World", d, hist: dict, k: int, call: dict, obs: dict):
+    """`_repr_mimebundle_`: the C19 statement per selected MIME type"""
+    def fail(cls: str, what: str):
+        out.find(f"mimebundle|{cls}", f"{what} [call {k}, way={hist['way']} files={call['files']} include={call.get('inc')} "
+                 f"fallback={hist['allow']}]", dict(hist, stream="seq", upto=k))
+
+    if w.model.diagram_cache is None or "ok" not in obs["result"] or call.get("bad") or hist.get("conv_faults"):
+        return
+    uuid, present = d.uuid, set(call["files"])
+    inc, exc = call.get("inc"), call.get("exc") or []
+    selected = {}
+    for n, ch in table.items():
+        m = getattr(ch[0], "mimetype", None)
+        if m and (inc is None or m in inc) and m not in exc:
+            selected[m] = ch
+    res = obs["result"]["ok"]
+    got = dict((m, v) for m, v in res[1]) if res[0] == "bundle" else {}
+    own = {m: ch for m, ch in selected.items() if getattr(ch[0], "filename_extension", None) and (uuid + ch[0].filename_extension) in present}
+    for m, ch in own.items():
+        want = ["from_cache", name_id(ch[0]), ["file", uuid + ch[0].filename_extension]]
+        if got.get(m) != want:
+            fail("hit-not-served", f"{uuid + ch[0].filename_extension} is cached but bundle[{m}] = {got.get(m)}")
+    if own or not selected:
+        if ["fresh"] in obs["trace"]:
+            fail("fresh-on-hit", "a selected format is cached but the internal renderer ran")
+        return
+    ancestor = [m for m, ch in selected.items() for cv in ch[1:]
+                if getattr(cv, "filename_extension", None) and hasattr(cv, "from_cache") and (uuid + cv.filename_extension) in present]
+    if ["fresh"] in obs["trace"]:
+        if not hist["allow"]:
+            fail("fresh-without-fallback", "no selected format is cached, fallback off, but the diagram was rendered internally")
+        elif ancestor:
+            fail("ancestor-not-used", f"a cached ancestor format of {ancestor} exists but the diagram was rendered internally")
+
+
+def gen_histories(ctx: Ctx, fmts: list[str], uuid: str, others: list[str], way: str, n_random: int):
+    """systematic two-step histories (every way of filling the in-memory state, then every entry point) + random ones"""
+    rng = ctx.rng
+    u = universe(uuid, others, False)
+    own = [uuid + ".svg", uuid + ".png"]
+    kinds = ["KeyError", "UnknownOutputFormat", "Other"]
+    ops_ids = None
+
+    def entry_calls(files, bad=None):
+        cs = [{"entry": "render", "fmt": f, "pretty": False} for f in ["svg", "png", "termgraphics", "html_img", "svgdiagram"]]
+        cs += [{"entry": "as", "fmt": "svg"}, {"entry": "as", "fmt": "png"}, {"entry": "html"}, {"entry": "repr", "draw": True}, {"entry": "repr", "draw": False},
+               {"entry": "mimebundle", "inc": None}, {"entry": "mimebundle", "inc": ["image/png"]}, {"entry": "mimebundle", "inc": ["image/svg+xml"], "draw": True},
+               {"entry": "mimebundle", "inc": None, "exc": ["image/png", "image/svg+xml"]}, {"entry": "mimebundle", "inc": ["text/html"]}]
+        cs += [{"entry": "save", "fmt": f, "given": g, "target": t_} for f in fmts for g, t_ in ((True, "path"), (True, "fileobj"), (True, "pathlib"), (False, None))]
+        return [dict(c, files=list(files), bad=list(bad or [])) for c in cs]
+
+    fills = [[], [{"entry": "render", "fmt": None, "files": [], "bad": []}],
+             [{"entry": "render", "fmt": None, "files": [], "bad": [], "create_ok": False}],
+             [{"entry": "render", "fmt": "svg", "files": [], "bad": []}],     # a fallback render (if enabled) fills the state too
+             [{"entry": "mimebundle", "inc": None, "files": [], "bad": []}],
+             [{"entry": "render", "fmt": None, "files": [], "bad": [], "pe": False}, {"entry": "invalidate", "files": [], "bad": []}]]
+    file_sets = [[], [own[0]], [own[1]], own + [o + ".svg" for o in others[:1]]]
+    for fill in fills:
+        for files in file_sets:
+            for c in entry_calls(files):
+                if fill and c["entry"] == "save" and c.get("target") in ("fileobj", "pathlib"):
+                    continue
+                yield {"calls": [dict(x) for x in fill] + [c], "conv_faults": []}
+    # faults at a particular point: every (op, converter) x kind on a hit path; every own name raising x kind
+    import gen_formats
+    live = gen_formats.collect()
+    points = [("from_cache", r["id"]) for r in live["convs"] if r["fromCache"]] + \
+             [("convert" if r["hasConvert"] else "call", r["id"]) for r in live["convs"]]
+    for (op, cid), kind in itertools.product(points, kinds):
+        for files in ([own[0]], own):
+            for c in [{"entry": "render", "fmt": f} for f in fmts] + [{"entry": "as", "fmt": "png"}, {"entry": "html"}, {"entry": "repr", "draw": True},
+                                                                          {"entry": "mimebundle", "inc": None}, {"entry": "save", "fmt": "png", "given": True, "target": "fileobj"}]:
+                if rng.random() < (1.0 if ctx.thorough else 0.35):
+                    yield {"calls": [dict(c, files=list(files), bad=[])], "conv_faults": [[op, cid, kind]]}
+    for name, kind in itertools.product(own, kinds):
+        for files in ([], [own[0]], own):
+            for c in [{"entry": "render", "fmt": f} for f in ("svg", "png", "html_img", "termgraphics")] + \
+                     [{"entry": "as", "fmt": "png"}, {"entry": "html"}, {"entry": "repr", "draw": True}, {"entry": "mimebundle", "inc": None},
+                      {"entry": "save", "fmt": "svg", "given": True, "target": "path"}]:
+                yield {"calls": [dict(c, files=list(files), bad=[[name, kind]])], "conv_faults": []}
+    if way == "path-str":  # the real thing: a DIRECTORY called <uuid>.svg / <uuid>.png in the cache
+        for name in own:
+            for f in ("svg", "png", "html_img"):
+                yield {"calls": [{"entry": "render", "fmt": f, "files": [], "bad": [[name, "Other"]], "real_dir": True},
+                                 {"entry": "as", "fmt": f, "files": [own[1]] if name == own[0] else [], "bad": [[name, "Other"]], "real_dir": True}], "conv_faults": []}
+    for _ in range(n_random):
+        calls = []
+        for _k in range(rng.randint(2, 6)):
+            e = rng.choice(ENTRIES)
+            c = {"entry": e, "files": sorted(n for n in u if rng.random() < 0.4), "bad": [], "create_ok": rng.random() < 0.8}
+            if rng.random() < 0.15:
+                c["bad"] = [[rng.choice(own), rng.choice(kinds)]]
+            if e in ("render", "as", "save"):
+                c["fmt"] = rng.choice(fmts + (["bogus"] if e != "as" else []) + ([None] if e == "render" else []))
+            if e in ("render", "save"):
+                c["pretty"], c["pe"] = rng.random() < 0.3, rng.random() < 0.75
+            if e == "save":
+                c["given"] = rng.random() < 0.7
+                c["target"] = rng.choice(["path", "fileobj", "pathlib"])
+            if e in ("repr", "mimebundle"):
+                c["draw"] = rng.random() < 0.5
+            if e == "mimebundle":
+                c["inc"] = rng.choice([None, ["image/png"], ["image/svg+xml"], ["image/png", "image/svg+xml"], ["text/html"]])
+                c["exc"] = rng.choice([[], [], ["image/png"]])
+            calls.append(c)
+        cf = []
+        if rng.random() < 0.3:
+            op, cid = rng.choice(points)
+            cf = [[op, cid, rng.choice(kinds)]]
+        yield {"calls": calls, "conv_faults": cf}
+
+
+def run_history(D, w: "World", d, hist: dict, tmp: pathlib.Path, upto: int | None = None):
+    """replay one history on the real object (state reset first); returns the list of observations"""
+    STATE["conv_faults"] = {(op, cid): kind for op, cid, kind in hist.get("conv_faults") or []}
+    d.invalidate_cache()
+    obs_all = []
+    saved_draw = vars(D).get("REPR_DRAW", _MISSING)
+    made_dirs: list[pathlib.Path] = []
+    try:
+        for k, call in enumerate(hist["calls"] if upto is None else hist["calls"][: upto + 1]):
+            w.set_files({n: content_for(n, "tag") for n in call["files"]}, (), "tag")
+            d2 = next(x for x in w.model.diagrams if x.uuid == d.uuid)
+            assert d2 is d, "diagram proxy identity lost between calls"
+            if call.get("real_dir"):
+                STATE["open_faults"] = {}
+                for n, _kind in call["bad"]:
+                    p = w.cdir / n
+                    if p.is_file():
+                        p.unlink()
+                    p.mkdir(exist_ok=True)
+                    made_dirs.append(p)
+            else:
+                STATE["open_faults"] = {n: kind for n, kind in call.get("bad") or []}
+            STATE["fail_fresh"] = not call.get("create_ok", True)
+            STATE["created"] = 0
+            REC.events = []
+            REC.enabled = True
+            try:
+                res = {"ok": seq_call(D, w, d, call, tmp)}
+            except Exception as e:  # noqa: BLE001
+                res = {"raise": errname(e, D)}
+                e.__traceback__ = None
+            finally:
+                REC.enabled = False
+            for p in made_dirs:
+                if p.is_dir():
+                    p.rmdir()
+            made_dirs.clear()
+            state = "failed" if hasattr(d, "_error") else ("rendered" if hasattr(d, "_render") else "empty")
+            obs_all.append({"trace": list(REC.events), "result": res, "state": state, "created": STATE["created"] > 0})
+    finally:
+        STATE["conv_faults"], STATE["open_faults"], STATE["fail_fresh"] = {}, {}, False
+        if saved_draw is _MISSING:
+            D.__dict__.pop("REPR_DRAW", None)
+        else:
+            D.REPR_DRAW = saved_draw
+        d.invalidate_cache()
+    return obs_all
+
+
+def seq_request(hist: dict, d) -> dict:
+    calls = []
+    for c in hist["calls"]:
+        calls.append({k: v for k, v in c.items() if k not in ("target", "real_dir")} | {"files": sorted(c["files"])})
+    return {"op": "cache.seq", "uuid": d.uuid, "name": d.name, "spec": SPEC_KIND[hist["way"]], "allow": hist["allow"],
+            "conv_faults": hist.get("conv_faults") or [], "calls": calls}
+
+
+def run_seq(ctx: Ctx, out: Outcome, D, lib: pathlib.Path, fmts: list[str], requests: dict, pending: list, count):
+    P = install("tag")
+    tmp = ctx.scratch / "seq-tmp"
+    tmp.mkdir(exist_ok=True)
+    try:
+        table = live_table(D)
+        for way in ("path-str", "handler-memory", "falsy-none"):
+            for allow in (False, True):
+                w = World(ctx, lib, way, allow, None, tag="seq")
+                w.set_files({})
+                dgs = list(w.model.diagrams)
+                d = dgs[0]
+                others = [x.uuid for x in dgs if x.uuid != d.uuid]
+                for hist in gen_histories(ctx, fmts, d.uuid, others, way, ctx.pick(60, 400) if way != "falsy-none" else ctx.pick(15, 60)):
+                    hist = dict(hist, way=way, allow=allow, uuid=d.uuid, model="lib")
+                    obs_all = run_history(D, w, d, hist, tmp)
+                    for k, (call, obs) in enumerate(zip(hist["calls"], obs_all)):
+                        judge_seq(out, D, table, w, d, hist, k, call, obs)
+                        if call["entry"] == "mimebundle":
+                            judge_bundle(out, D, table, w, d, hist, k, call, obs)
+                        count(f"seq.entry:{call['entry']}")
+                        count("seq.state-before:" + (obs_all[k - 1]["state"] if k else "empty"))
+                        if call.get("bad"):
+                            count("seq.open-fault:" + call["bad"][0][1] + (":real-directory" if call.get("real_dir") else ""))
+                        out.hit("seq.impl:" + call["entry"] + ":" + ("raise:" + obs["result"]["raise"] if "raise" in obs["result"] else
+                                                                  ("hit" if any(e[0] == "from_cache" for e in obs["trace"]) else
+                                                                   ("fresh" if ["fresh"] in obs["trace"] else "other"))))
+                    for x in hist.get("conv_faults") or []:
+                        count(f"seq.conv-fault:{x[0]}:{x[2]}")
+                    count(f"seq.len:{len(hist['calls'])}")
+                    nontriv = SPEC_KIND[way] != "falsy"
+                    out.case(common.sha(hist), None, nontriv)
+                    out.traces_validated += len(obs_all)
+                    req = seq_request(hist, d)
+                    key = common.sha(req)
+                    requests.setdefault(key, req)
+                    pending.append((key, {"stream": "seq", **hist}, obs_all))
+                w.model = None
+                shutil.rmtree(w.base, ignore_errors=True)
+    finally:
+        P.restore()
+        shutil.rmtree(tmp, ignore_errors=True)
+
 # ------------------------------------------------------------------ single-case replay
+
+
+def replay_seq(ctx: Ctx, case: dict) -> str | None:
+    D = _imports()
+    import logging
+
+    logging.disable(logging.CRITICAL)
+    out = Outcome()
+    P = install("tag")
+    tmp = ctx.scratch / "seq-tmp"
+    tmp.mkdir(exist_ok=True)
+    try:
+        table = live_table(D)
+        w = World(ctx, common.REPO / "tests" / "data" / "Library Test", case["way"], case["allow"], None, tag="replay-seq")
+        w.set_files({})
+        d = next(x for x in w.model.diagrams if x.uuid == case["uuid"])
+        hist = {k: v for k, v in case.items() if k not in ("stream", "upto")}
+        obs_all = run_history(D, w, d, hist, tmp, case.get("upto"))
+        try:
+            m = common.model([seq_request(hist, d)], driver="Cache")[0].get("ok")
+        except Exception as e:  # noqa: BLE001
+            m = None
+            print(f"  (model not available: {e})")
+        print(f"replay (history on one diagram object): way={case['way']} fallback={case['allow']} converter faults={case.get('conv_faults')}")
+        for k, (call, obs) in enumerate(zip(hist["calls"], obs_all)):
+            print(f"  call {k}: {call}")
+            print(f"    implementation: trace={obs['trace']} result={obs['result']} state={obs['state']} rendered-internally={obs['created']}")
+            if m:
+                print(f"    model:          trace={m[k]['trace']} result={m[k]['result']} state={m[k]['state']} rendered-internally={m[k]['created']}")
+                if m[k] != obs:
+                    out.find("seq|model-differs", f"call {k}: implementation {obs} / model {m[k]}", case)
+            judge_seq(out, D, table, w, d, hist, k, call, obs)
+            if call["entry"] == "mimebundle":
+                judge_bundle(out, D, table, w, d, hist, k, call, obs)
+    finally:
+        P.restore()
+        shutil.rmtree(tmp, ignore_errors=True)
+    if out.findings:
+        return "; ".join(f"{f.signature}: {f.what}" for f in out.findings)
+    return None
 
 
 def replay(ctx: Ctx, case: dict) -> str | None:
     os.environ.setdefault("XDG_CACHE_HOME", str(ctx.scratch / "xdg"))
+    if case.get("stream") == "seq":
+        return replay_seq(ctx, case)
     D = _imports()
     data = common.REPO / "tests" / "data"
     srcs = {"lib": (data / "Library Test", None),
